@@ -50,6 +50,22 @@ def jobs_smr_rcu(tier, seed):
     return (shards('smr_rcu', 'dbg', 11, 5, 3600) + shards('smr_rcu', 'rel', 11, 5, 3600) + shards('smr_rcu', 'asan', 11, 5, 3600, scale=0.4))
 
 
+def jobs_pure(tier, seed):
+    # the harness restricts itself to the variants of --prop; thorough = exhaustive 2^32 loops on 16 threads
+    if tier == 'quick':
+        return [('pure', 'dbg', [], 4, 900), ('pure', 'asan', [], 4, 900)]
+    return [('pure', 'dbg', [], 16, 3600), ('pure', 'asan', [], 16, 5400), ('pure', 'rel', [], 16, 3600)]
+
+
+def sync_jobs(target, builds_quick, builds_thorough, nq=2, nt=4):
+    def jobs(tier, seed):
+        out = []
+        for b in (builds_quick if tier == 'quick' else builds_thorough):
+            out += shards(target, b, nq if tier == 'quick' else nt, 5, 900 if tier == 'quick' else 5400)
+        return out
+    return jobs
+
+
 HP_MECH = ['hp.inplace.scan_count', 'hp.classic.scan_count', 'hp.inplace.help_scan_count', 'hp.classic.help_scan_count']
 DHP_MECH = ['dhp.scan_count', 'dhp.help_scan_count', 'dhp.hp_extend_count', 'dhp.retired_block_count']
 
@@ -64,6 +80,13 @@ PROPS = {
         'mechanisms_required': ['ms.onBadTail', 'ms.onEnqueueRace', 'ms.onDequeueRace', 'basket.onTryAddBasket', 'basket.onAddBasket',
                                 'optimistic.onFixList', 'fc.onCombining', 'fc.onCollide', 'fc.onPassiveToCombiner'],
     },
+    'C21': {'jobs': sync_jobs('freelist', ['dbg', 'asan', 'tsan'], ['dbg', 'rel', 'asan', 'tsan'])},
+    'C22': {'jobs': sync_jobs('locks', ['dbg', 'asan', 'tsan'], ['dbg', 'rel', 'asan', 'tsan'], nq=3, nt=7)},
+    'C24': {'jobs': sync_jobs('pools', ['dbg', 'asan'], ['dbg', 'rel', 'asan'], nq=2, nt=4)},
+    'C25': {'jobs': jobs_pure, 'exhaustive': True},
+    'C26': {'jobs': jobs_pure, 'exhaustive': True},
+    'C27': {'jobs': jobs_pure},
+    'C28': {'jobs': jobs_pure, 'exhaustive': True},
     'C12': {'jobs': seq_jobs('ringbuf', 4, 8, asan_scale=1.0, tsan_scale=1.0, threads=3),
             'mechanisms_required': ['ring.wraps', 'ring.failed_push_full', 'ring.failed_pop_empty', 'byte.tail_markers']},
     'C07': {'jobs': seq_jobs('bounded', 5, 9), 'mechanisms_required': ['vyukov.enqueue_full', 'vyukov.dequeue_empty']},
